@@ -161,6 +161,7 @@ class MidiMapperRT
         void handleCC(int par, int val, char chan=1, bool nrpn=false);
         void addWatch(void);
         void remWatch(void);
+        void remWatch(const char *msg);
 
         //Deprecated
         Port addWatchPort(void);
